@@ -21,6 +21,13 @@ def run(ctx):
         ctx.sample(scen, 1)
         trace = ctx.execute("objmodel", scen)
         ctx.validate("ObjectModel", "Trace_ObjectModel.tla", "Trace_ObjectModel_nameless.cfg", trace, "objmodel", parallel=14, heap="4g")
+    # random walks over the full universe (TLC simulation of the reference, 30 commands each, bad arguments included): depth that the
+    # BFS-shortest histories above do not reach
+    walks = ctx.gen("ObjectModel", "MC_ObjectModel.tla", "MC_walk.cfg", "walks", workers=4, timeout=2400, heap="8g", env={"WALK": "1"},
+                    extra=["-simulate", "num=%d" % (100 if ctx.quick else 1500), "-depth", "31", "-seed", str(ctx.seed)], count_states=False)
+    ctx.sample(walks, 1)
+    wktrace = ctx.execute("objmodel", walks)
+    ctx.validate("ObjectModel", "Trace_ObjectModel.tla", strict, wktrace, "objmodel", parallel=14, heap="4g")
     # mechanism level: equivalence lists with dead entries over four variables (histories the abstract state graph cannot distinguish)
     wide = ctx.gen("ObjectModel", "MC_EquivList.tla", ("MC_Eq" if ctx.quick else "MC_E") + ".cfg", "equivlist", workers=8, timeout=2400, heap="12g")
     ctx.sample(wide, 1)
@@ -36,7 +43,7 @@ def run(ctx):
                "every edge (state, command) of the reachable graph of the ObjectModel reference over projections of the universe "
                "{2 models, 3 components, 3 variables, 3 units, 2 resets; look-alike names}, each replayed on the real library from a fresh universe "
                "after the BFS-shortest history of its source state; plus every command of the alphabet with null / one-past-the-end / unknown-name "
-               "arguments in every state at depth <= 2; plus MC_F1 / MC_F2: the same over universes with nameless components and units and the command Model::clean(); plus MC_EquivList: the equivalence lists of four parentless variables with their dead entries (model-checked to expose ObjectModel's symmetric relation), "
+               "arguments in every state at depth <= 2; plus MC_F1 / MC_F2: the same over universes with nameless components and units and the command Model::clean(); plus random walks of 30 commands over the full universe (tlc -simulate, seeded; quick 400, thorough 6000 walks); plus MC_EquivList: the equivalence lists of four parentless variables with their dead entries (model-checked to expose ObjectModel's symmetric relation), "
                "one scenario per (state with a dead entry, command); plus the BadArgs table: 77 methods of importer, annotator, analyser, external variables, analyser-model queries, validator, printer, generator, parser "
                "x {null, never added to a model, owner destroyed, one past the end, unknown name / key / id, entity of another model} (98 calls): outcome class, unchanged models and service state, service still working afterwards "
                "(thorough: ASan + UBSan build); non-trivial = each scenario is a distinct (state, command) pair",
